@@ -3,7 +3,7 @@ P = dict(
     bin="egv_c19", trace="Trace_C19", level="model_checking",
     mc=[dict(module="MC_C19", quick_cfg="MC_C19.cfg", thorough_cfg="MC_C19_thorough.cfg"),
         # the 1 px outline rendered by the transcribed styled-triangle machine (EGThickTri) = the three edge lines
-        dict(module="MC_C02t", quick_cfg="MC_C19t.cfg", workers=8),
+        dict(module="MC_C02t", quick_cfg="MC_C19t.cfg", workers=8, coverage=False),
         dict(module="MC_C02t", quick_cfg="MC_C19t_control.cfg", expect_violation=True, coverage=False, workers=4)],
     drift_checked=True,
     required_events=["tri", "pair", "poly"],
